@@ -66,10 +66,18 @@ impl<'a> Gen<'a> {
     }
 
     fn producer(&mut self) -> G {
-        match self.w.below(4) {
+        match self.w.below(5) {
             0 => {
                 let f = self.finite();
                 G::Anyo(vec![f])
+            }
+            4 => {
+                // a loop whose body has a productive branch and a silently diverging one: every
+                // round must still be reached (the loop is a fair disjunction of its rounds)
+                let f = self.finite();
+                let d = self.diverger();
+                let cs = if self.w.chance(1, 2) { vec![vec![f], vec![d]] } else { vec![vec![d], vec![f]] };
+                G::Anyo(vec![G::Conde(cs)])
             }
             1 => {
                 let id = self.next_leaf;
@@ -196,8 +204,12 @@ fn alternatives(g: &G, ctx: &dyn Fn(G) -> G, levels: u32, out: &mut Vec<(u32, G,
             alternatives(b, ctx, levels + 2, out);
         }
         G::Anyo(gs) => {
-            let wrap = move |inner: Vec<G>| ctx(G::Conj(inner));
-            alternatives_in_conj(gs, &wrap, levels + 1, out);
+            // The loop stays in the alternative's own program: run alone it yields its answers
+            // round after round, and the first M of them (so: answers of later rounds too) must
+            // also come out of the whole program. A loop is the disjunction of its rounds; round
+            // k sits k levels deep, hence three levels for what the first M = 3 answers can need.
+            let wrap = move |inner: Vec<G>| ctx(G::Anyo(inner));
+            alternatives_in_conj(gs, &wrap, levels + 3, out);
         }
         G::Conj(gs) => {
             let wrap = move |inner: Vec<G>| ctx(G::Conj(inner));
@@ -462,7 +474,13 @@ impl Check for C07Check {
         facts.answers_compared += (total_needed - left) as u64;
         match res {
             Ok((true, _taken, last_q)) if left == 0 => {
-                facts.metrics.insert("quanta_needed_over_bound", last_q as f64 / bound as f64);
+                // the margin that matters: cases whose bound was not capped (a capped case that runs
+                // out of quanta is inconclusive, never a violation)
+                if bound_capped {
+                    facts.metrics.insert("quanta_needed_over_capped_bound", last_q as f64 / bound as f64);
+                } else {
+                    facts.metrics.insert("quanta_needed_over_bound", last_q as f64 / bound as f64);
+                }
                 facts.nontrivial = alts.len() >= 2
                     || p.any(|g| matches!(g, G::Call(Rel::Never, _) | G::Anyo(_)))
                     || p.any(|g| matches!(g, G::Leaf(l) if l.tail != Tail::End));
